@@ -5,6 +5,7 @@ from ..values import Sc, is_variant, payload, bv
 from .. import replay as rp
 from .. import oracles as O
 
+from ..validate import validation_group
 BOUNDS = {'quick': {'identifier_list_len': 2, 'numeric identifiers': 'full u64', 'components': 'u64 <= MAX_SAFE_INTEGER'},
           'thorough': {'identifier_list_len': 4, 'numeric identifiers': 'full u64', 'components': 'u64 <= MAX_SAFE_INTEGER'}}
 OUTSIDE = ['identifier lists longer than the bound', 'contents of alphanumeric identifiers: String comparison is trusted to be byte-wise (abstract ordered tokens)',
@@ -20,6 +21,7 @@ def groups(tier):
           {'name': 'hash-L%d' % min(L, 3), 'fn': hash_group, 'args': {'L': min(L, 3)}}]
     if tier != 'quick':
         gs.append({'name': 'order-L1', 'fn': order_group, 'args': {'L': 1}})
+    gs.append(validation_group(('cmp',), tier))
     return gs
 
 
